@@ -89,6 +89,9 @@ class Rows(object):
 # abstract diagram
 # ---------------------------------------------------------------------------
 
+IN_COMPONENT = ('comp', 'nested')     # containers whose content belongs to the component under test
+
+
 class Attr(object):
     def __init__(self, name, type=None, derived=None):
         self.name = name
@@ -240,6 +243,14 @@ def build(d, rows=None):
         R.add('PE_PE', Element_ID=inner2, Visibility=1, Component_ID=comp2, type=7)
         R.add('EP_PKG', Package_ID=inner2, Direct_Sys_ID=sys_id, Name='Inner2')
         containers['comp2'] = ('pkg', inner2)
+        # a component nested in the package of the first one: what it holds is contained in the first
+        nested = R.new_id()
+        R.add('PE_PE', Element_ID=nested, Visibility=1, Package_ID=inner, type=2)
+        R.add('C_C', Id=nested, Name='Nested_' + d.component)
+        inner3 = R.new_id()
+        R.add('PE_PE', Element_ID=inner3, Visibility=1, Component_ID=nested, type=7)
+        R.add('EP_PKG', Package_ID=inner3, Direct_Sys_ID=sys_id, Name='Inner3')
+        containers['nested'] = ('pkg', inner3)
     B.containers = containers
 
     def pe(elem_id, where, ty):
@@ -538,7 +549,7 @@ def reference_component(d, derived=False, component=False):
     -> (classes {KL: [(attr, TYPE)]}, identifiers {KL: {name: (attrs)}}, associations as a list of tuples
     (rel_id, src, frozenset(key pairs), src card, src phrase, tgt, tgt card, tgt phrase))
     '''
-    scope = lambda where: (not component) or where == 'comp'
+    scope = lambda where: (not component) or where in IN_COMPONENT
     classes, idents = {}, {}
     for c in d.classes:
         if not scope(c.where):
@@ -637,7 +648,7 @@ def reference_xsd(d):
             types[name] = ('restriction', b)
     classes = {}
     for c in d.classes:
-        if c.where != 'comp':
+        if c.where not in IN_COMPONENT:
             continue
         attrs = {}
         for a in c.attrs:
